@@ -12,7 +12,7 @@ A *template* (units/<name>.rs.tpl) is ordinary Verus text plus `//@` directives:
   //@  spec                              payload = requires/ensures clauses, inserted before the body
   //@  loop <k>                          payload = invariant/decreases of the k-th loop (after rewrites)
   //@  before <anchor> / after <anchor>  payload = proof text put before/after the line containing anchor
-  //@  atstart                           payload put right after the opening brace of the body
+  //@  atstart / atend                   payload put right after the opening brace / before the tail expression line
   //@end
 
 Everything that is not a directive or directive payload is copied as is.  The executable statements
@@ -169,6 +169,9 @@ BUILTIN = {
     # R9: for X in V.drain(..) {
     'R9': (r'\bfor\s+(\w+)\s+in\s+([\w\.]+)\.drain\(\.\.\)\s*\{',
            r'let mut __d_\1 = drain_all(&mut \2); while __d_\1.has_next() { let \1 = __d_\1.take_next();'),
+    # R6m: for X in V.iter_mut() {   -> index loop handing out &mut V[i] in order
+    'R6m': (r'\bfor\s+(\w+)\s+in\s+([\w\.]+)\.iter_mut\(\)\s*\{',
+            r'let mut __im_\1: usize = 0; while __im_\1 < \2.len() { let \1 = &mut \2[__im_\1]; __im_\1 += 1;'),
     # R4: *unsafe { X.get_unchecked(I) }  /  unsafe { *X.get_unchecked(I) }
     'R4': (r'(?:\*\s*unsafe\s*\{\s*|unsafe\s*\{\s*\*\s*)([\w\.]+)\.get_unchecked\(([^{}]+?)\)\s*\}',
            r'\1[\2]'),
@@ -214,6 +217,8 @@ class Extracted:
         self.rewrites = []
         self.n_spec_lines = 0
         self.stub_of = None
+        self.is_twin = False
+        self.gen_name = None
 
 
 class Result:
@@ -254,7 +259,9 @@ def process_template(tpl_path, repo_root, canary=False, _res=None):
             if i >= n:
                 raise ExtractError("%s: //@extract without //@end (%s)" % (tpl_path, head))
             i += 1
-            _do_extract(res, repo_root, head, block, canary, tpl_path)
+            _do_extract(res, repo_root, head, block, False, tpl_path)
+            if canary:
+                _do_extract(res, repo_root, head, block, True, tpl_path)
         elif st.startswith('//@'):
             raise ExtractError("%s:%d: stray directive %s" % (tpl_path, i + 1, st))
         else:
@@ -306,7 +313,14 @@ def _do_extract(res, repo_root, head, block, canary, tpl_path):
     ds = _parse_block(block, tpl_path)
     ex = Extracted()
     ex.file, ex.selector = file_rel, selector
+    ex.is_twin = canary
     lastseg = selector.split(' :: ')[-1]
+    if canary:
+        # canary twins only for plain fns with bodies outside traits / trait impls
+        segs = selector.split(' :: ')
+        in_trait = any(sg.startswith('trait ') or (sg.startswith('impl') and ' for ' in sg) for sg in segs[:-1])
+        if not lastseg.startswith('fn ') or in_trait or any(d.kind == 'stub' for d in ds):
+            return
     ex.kind, _, ex.name = lastseg.partition(' ')
     if ex.kind.startswith('impl'):
         ex.kind, ex.name = 'impl', lastseg
@@ -349,9 +363,17 @@ def _do_extract(res, repo_root, head, block, canary, tpl_path):
         name_span = m.span(1)
         body_open = rscan.find_body_open(masked, m.end(), '{;')
         ex.has_body = masked[body_open] == '{'
+        if not ex.has_body and canary:
+            return
+        newname = None
         for d in ds:
             if d.kind == 'fnname':
-                t.replace(name_span[0], name_span[1], d.arg)
+                newname = d.arg
+        if canary:
+            newname = (newname or t.s[name_span[0]:name_span[1]]) + '__canary'
+        if newname:
+            t.replace(name_span[0], name_span[1], newname)
+            ex.gen_name = newname
         for d in ds:
             if d.kind == 'ret':
                 masked = rscan.mask(t.s)
@@ -446,6 +468,17 @@ def _do_extract(res, repo_root, head, block, canary, tpl_path):
                     if le < 0:
                         le = len(t.s)
                     t.insert(le, '\n' + '\n'.join(d.payload))
+            elif d.kind == 'atend':
+                # before the tail expression (last non-blank line) of the function body
+                masked = rscan.mask(t.s)
+                m = re.search(r'\bfn\s+(\w+)', masked)
+                body_open = rscan.find_body_open(masked, m.end(), '{')
+                body_close = rscan.match_close(masked, body_open)
+                k = body_close - 1
+                while k > body_open and t.s[k].isspace():
+                    k -= 1
+                ls = t.s.rfind('\n', 0, k) + 1
+                t.insert(ls, '\n'.join(d.payload) + '\n')
             elif d.kind == 'atstart':
                 masked = rscan.mask(t.s)
                 m = re.search(r'\bfn\s+(\w+)', masked)
